@@ -226,11 +226,11 @@ def _template(ctx, f, binary_param: str, depth=0) -> List[str]:
 _MARK = re.compile("(\x00[LR?])")
 _FUNC_HEAD = re.compile(r"^([A-Za-z_][\w.]*)\s*\(")
 # keywords that can precede `(` without being a function name
-_PREFIX_KEYWORDS = {"NOT", "AND", "OR", "IN", "EXISTS", "ANY", "ALL", "SOME", "BETWEEN", "LIKE", "IS"}
+_PREFIX_KEYWORDS = {"NOT", "AND", "OR", "IN", "BETWEEN", "LIKE", "IS"}
 _CONST_TAIL = re.compile(r"^(\S+(?: \S+)*?) (\d+(?:\.\d+)?|'[^']*'|NULL|TRUE|FALSE)$", re.I)
 
 
-def _outer_tokens(t: str):
+def _outer_tokens(t: str, only: Optional[str] = None):
     """Operator tokens textually adjacent to an operand marker (what an ungrouped operand would be parsed
     against): (before, after) = tokens standing to the LEFT of an operand / to the RIGHT of an operand.
     None when an operand touches an unknown fragment directly."""
@@ -242,8 +242,8 @@ def _outer_tokens(t: str):
         right_m = marks[i] if i < len(marks) else None
         if left_m and right_m and not tx.strip() and Q in (left_m, right_m) and {left_m, right_m} != {Q}:
             return None  # operand glued to an unknown fragment
-        lo = left_m if left_m != Q else None
-        ro = right_m if right_m != Q else None
+        lo = left_m if left_m != Q and only in (None, left_m) else None
+        ro = right_m if right_m != Q and only in (None, right_m) else None
         if left_m and right_m and not re.search(r"[(),]", tx):
             tok = " ".join(tx.upper().split())
             if tok and lo:
@@ -648,9 +648,187 @@ def _self_group_against(call: ast.Call) -> Optional[str]:
     return "<none>"
 
 
-@R.rule("C01-R4", floor=9, template="T-FLOW",
-        desc="operator-expression constructors apply self_group(against=<their operator>) to every operand; "
-             "self_group overrides return self for a non-None `against` only when is_precedent() is false")
+ALL_COMPILERS = dict(DIALECTS, standard=f"{CMP}::SQLCompiler", generic_str=f"{CMP}::StrSQLCompiler")
+
+# operator-bearing expression classes: their rendering has the operator token at its top level
+OPERATOR_BASES = (f"{EL}::OperatorExpression", f"{EL}::UnaryExpression", f"{EL}::ClauseList")
+
+# `return self` paths of a self_group() that are reachable although is_precedent(self.operator, against)
+# holds, and that are right for a reason the rule cannot read from the rendering templates.
+# {function key: (guard atom that must dominate the return, reason)}
+SELF_RETURN_EXCEPTIONS = {
+    f"{EL}::BooleanClauseList.self_group":
+        (("self.clauses", False), "an AND/OR list without members renders as the empty string"),
+    "dialects/postgresql/array.py::array.self_group":
+        (None, "ARRAY[...] literal: delimited by its brackets (an empty literal carries the tightest-binding "
+               "`::type` suffix)"),
+}
+
+
+def _tri_and(vals):
+    if any(v is False for v in vals):
+        return False
+    return True if all(v is True for v in vals) else None
+
+
+def _eval_under_precedent(e: ast.expr, ctx=None, cls=None, fnode=None, against: str = "against", depth: int = 0):
+    """Three-valued truth of a guard under the hypothesis H: the instance has an operator, takes part in
+    grouping (`self.group`), and is_precedent(self.operator, against) is true.  None = not determined.
+    Follows a local bound once and a helper method of the class that receives `against`."""
+    rec = lambda x: _eval_under_precedent(x, ctx, cls, fnode, against, depth)  # noqa: E731
+    if isinstance(e, ast.UnaryOp) and isinstance(e.op, ast.Not):
+        v = rec(e.operand)
+        return None if v is None else not v
+    if isinstance(e, ast.BoolOp):
+        vals = [rec(v) for v in e.values]
+        if isinstance(e.op, ast.And):
+            return _tri_and(vals)
+        neg = _tri_and([None if v is None else not v for v in vals])
+        return None if neg is None else not neg
+    if isinstance(e, ast.Call) and (call_name(e) or "").rsplit(".", 1)[-1] == "is_precedent":
+        if [unparse(a) for a in e.args] == ["self.operator", against] and not e.keywords:
+            return True
+        return None
+    if unparse(e) in ("self.group", "self.operator"):
+        return True
+    if isinstance(e, ast.Name) and fnode is not None and depth < 3:
+        binds = [v for n, v, st in name_stores(fnode) if n == e.id and v is not None]
+        if len(binds) == 1:
+            return _eval_under_precedent(binds[0], ctx, cls, fnode, against, depth + 1)
+        return None
+    if (isinstance(e, ast.Call) and isinstance(e.func, ast.Attribute) and unparse(e.func.value) == "self"
+            and ctx is not None and cls is not None and depth < 3):
+        tgt = ctx.index.resolve_method(cls, e.func.attr)
+        if tgt is None:
+            return None
+        params = [p for p in tgt.params if p != "self"]
+        inner_against = None
+        for i, a in enumerate(e.args):
+            if unparse(a) == against and i < len(params):
+                inner_against = params[i]
+        for k in e.keywords:
+            if k.arg and unparse(k.value) == against:
+                inner_against = k.arg
+        if inner_against is None:
+            return None
+        rets = [r for r in returns_of(tgt.node) if r.value is not None]
+        vals = {_eval_under_precedent(r.value, ctx, cls, tgt.node, inner_against, depth + 1) for r in rets}
+        if len(rets) == 1 and len(vals) == 1:
+            ctx.functions_analysed.add(tgt.key)
+            return vals.pop()
+        return None
+    return None
+
+
+def _guarded_operators(guards) -> Optional[List[str]]:
+    """Operators X for which a dominating guard demands `self.operator is operators.X` (or `in (...)`)."""
+    from ..astutil import test_atoms
+    for t, pol in guards:
+        for sub_t in ([t] if not (isinstance(t, ast.BoolOp) and isinstance(t.op, ast.And) and pol) else t.values):
+            if isinstance(sub_t, ast.Compare) and len(sub_t.ops) == 1 and unparse(sub_t.left) == "self.operator":
+                op, rhs = sub_t.ops[0], sub_t.comparators[0]
+                if isinstance(op, (ast.Is, ast.Eq)) and pol:
+                    d = dotted(rhs) or ""
+                    return [d.rsplit(".", 1)[-1]]
+                if isinstance(op, ast.In) and pol and isinstance(rhs, (ast.Tuple, ast.List, ast.Set)):
+                    return [(dotted(x) or "?").rsplit(".", 1)[-1] for x in rhs.elts]
+    return None
+
+
+def _op_visit(ctx, cls, op: str):
+    for mname in (f"visit_{op}_binary", f"visit_{op}_unary_operator", f"visit_{op}_unary_modifier"):
+        f = ctx.index.resolve_method(cls, mname)
+        if f is not None:
+            return f
+    return None
+
+
+def _bare_renderings(ctx, op: str) -> Tuple[List[str], int]:
+    """Compilers in which operator `op` is rendered with an operator token at the top level (not delimited
+    by a function call / parentheses of its own); second value = number of compilers decided."""
+    gen = _generic_operators(ctx)
+    bare, decided = [], 0
+    for name, ckey in sorted(ALL_COMPILERS.items(), key=lambda kv: (kv[0] != 'standard', kv[0])):
+        cls = ctx.index.cls(ckey)
+        f = _op_visit(ctx, cls, op)
+        if f is None:
+            if isinstance(gen.get(op), str):
+                decided += 1
+                bare.append(f"{name}: generic `{gen[op].strip()}` token")
+            continue
+        ctx.functions_analysed.add(f.key)
+        if _sets_eager_grouping(f):
+            decided += 1
+            continue
+        bp = f.params[1] if len(f.params) > 1 else "binary"
+        ts = _template(ctx, f, bp)
+        for t in ts:
+            inner, _ = _analyse_template(t)
+            if inner[0] in ("op", "transparent"):
+                shown = t.replace(L, "<left>").replace(Rt, "<right>").replace(Q, "<..>")
+                bare.append(f"{name}: {f.qualname} can return `{shown.strip()}`")
+                break
+        if ts:
+            decided += 1
+    return bare, decided
+
+
+def _own_visit_delimited(ctx, cls) -> Optional[bool]:
+    """True if the class names its own visit method (`__visit_name__` in its own body) and that method's
+    rendering is delimited in every compiler that has it; None if the class has no visit name of its own."""
+    vn = None
+    for node in cls.assigns.get("__visit_name__", []):
+        if isinstance(node, ast.Constant) and isinstance(node.value, str):
+            vn = node.value
+    if vn is None:
+        return None
+    seen = False
+    for name, ckey in sorted(ALL_COMPILERS.items(), key=lambda kv: (kv[0] != 'standard', kv[0])):
+        f = ctx.index.resolve_method(ctx.index.cls(ckey), f"visit_{vn}")
+        if f is None:
+            continue
+        ctx.functions_analysed.add(f.key)
+        ts = _template(ctx, f, f.params[1] if len(f.params) > 1 else "element")
+        if not ts:
+            continue
+        seen = True
+        if any(_analyse_template(t)[0][0] != "self" for t in ts):
+            return False
+    return seen
+
+
+def _right_operand_exposure(ctx, op: str) -> Tuple[List[str], int]:
+    """Where the rendering of binary operator `op` leaves its RIGHT operand next to an operator token."""
+    gen = _generic_operators(ctx)
+    exposed, decided = [], 0
+    for name, ckey in sorted(ALL_COMPILERS.items(), key=lambda kv: (kv[0] != 'standard', kv[0])):
+        cls = ctx.index.cls(ckey)
+        f = ctx.index.resolve_method(cls, f"visit_{op}_binary")
+        if f is None:
+            if isinstance(gen.get(op), str):
+                decided += 1
+                exposed.append(f"{name}: generic `{gen[op].strip()}` token")
+            continue
+        ctx.functions_analysed.add(f.key)
+        if _sets_eager_grouping(f):
+            continue
+        for t in _template(ctx, f, f.params[1] if len(f.params) > 1 else "binary"):
+            if Rt not in t:
+                continue
+            o = _outer_tokens(t, only=Rt)
+            decided += 1
+            if o is None or o[0] or o[1]:
+                shown = t.replace(L, "<left>").replace(Rt, "<right>").replace(Q, "<..>")
+                exposed.append(f"{name}: {f.qualname} renders `{shown.strip()}`")
+                break
+    return exposed, decided
+
+
+@R.rule("C01-R4", floor=16, template="T-FLOW",
+        desc="operator-expression constructors apply self_group(against=<their operator>) to every operand "
+             "(ungrouped lists only where the rendering delimits them); every self_group() of an operator-bearing "
+             "class returns self only where is_precedent() is false or the rendering is delimited, and "
+             "delegating self_group()s forward `against`")
 def r4(ctx):
     # BinaryExpression.__init__: left and right
     f = ctx.func(f"{EL}::BinaryExpression.__init__")
@@ -697,20 +875,67 @@ def r4(ctx):
     ctx.check(grouped_ok and ungrouped_guarded, f"{f.key}:clauses",
               "clauses are stored without self_group(against=operator) outside the explicit group=False arm",
               "each clause self_group(against=operator) unless group=False", f.loc)
-    # who passes group=False (T-OWN): only constructs whose rendering delimits the list itself
-    allowed = {f"{DC}::_between_impl": "BETWEEN x AND y: the AND list is delimited by the BETWEEN keyword",
-               f"{DC}::_regexp_replace_impl": "arguments of a function call, comma separated"}
+    # who passes group=False: the members of such a list are stored bare, so either the enclosing operator's
+    # rendering must delimit the list (function-call parentheses and a comma separator) in every compiler,
+    # or the caller must itself apply self_group(against=<enclosing operator>) to each member
+    dcm = ctx.index.module(DC)
+    lookup = ctx.ev.module_value(dcm, "operator_lookup")
+    ctx.require(isinstance(lookup, dict), "operator_lookup is not a dict literal")
+    impl_ops: Dict[str, List[str]] = {}
+    for name, row in lookup.items():
+        if isinstance(row, tuple) and row and isinstance(row[0], Sym):
+            impl_ops.setdefault(row[0].short, []).append(name)
+    gen_ops = _generic_operators(ctx)
     for mod in ctx.index.all_modules():
         if "_construct_for_list" not in mod.source:
             continue
+        pmm = mod.parents()
         for fi in ctx.index.all_functions(mod):
             for c in calls_in(fi.node, into_nested=True):
-                if (call_name(c) or "").endswith("_construct_for_list"):
-                    kw = {k.arg: unparse(k.value) for k in c.keywords}
-                    if kw.get("group") == "False":
-                        ctx.check(fi.key in allowed, f"{fi.key}:group=False",
-                                  "new caller builds an ungrouped operator list (operands are not parenthesised)",
-                                  allowed.get(fi.key, ""), f"{mod.path}:{c.lineno}")
+                if not (call_name(c) or "").endswith("_construct_for_list"):
+                    continue
+                kw = {k.arg: unparse(k.value) for k in c.keywords}
+                if kw.get("group") != "False":
+                    continue
+                key = f"{fi.key}:group=False"
+                loc = f"{mod.path}:{c.lineno}"
+                ctx.require(len(c.args) >= 3, f"{fi.key}: ungrouped _construct_for_list call without members")
+                sep_op = (dotted(c.args[0]) or unparse(c.args[0])).rsplit(".", 1)[-1]
+                members = c.args[2:]
+                parent = pmm.get(c)
+                exposed, decided = [], 0
+                if (isinstance(parent, ast.Call) and (call_name(parent) or "").endswith("BinaryExpression")
+                        and len(parent.args) >= 3 and parent.args[1] is c):
+                    encl = unparse(parent.args[2])
+                    ops = impl_ops.get(fi.name, []) if encl in fi.params else [encl.rsplit(".", 1)[-1]]
+                    ctx.require(ops, f"{fi.key}: cannot tell which operators reach it (not an operator_lookup impl)")
+                    for o in ops:
+                        e, d = _right_operand_exposure(ctx, o)
+                        exposed += [f"{o}: {x}" for x in e]
+                        decided += d
+                    ctx.require(decided > 0, f"{fi.key}: no compiler rendering of {ops} could be read")
+                    where = f"as the right operand of {ops}"
+                else:
+                    # the list is an expression of its own: its members stand next to its own separator
+                    encl, ops = unparse(c.args[0]), [sep_op]
+                    where = "as an expression of its own"
+                sep = gen_ops.get(sep_op)
+                sep_is_delimiter = isinstance(sep, str) and sep.strip() == ","
+                explicitly_grouped = all(
+                    isinstance(mb, ast.Call) and _self_group_against(mb) == encl for mb in members)  # (*args: no)
+                if explicitly_grouped:
+                    ctx.ok(key, f"each member is passed through self_group(against={encl}) by the caller")
+                elif not exposed and sep_is_delimiter:
+                    ctx.ok(key, f"{ops}: the list is rendered inside the parentheses of a function call, comma "
+                                f"separated ({decided} renderings read)")
+                else:
+                    why = exposed[0] if exposed else f"the list separator `{sep}` is not a delimiter"
+                    ctx.violation(
+                        key,
+                        f"builds an UNGROUPED `{sep_op}` list {where} whose members are never "
+                        f"passed through self_group(): {why}, so a member that is itself an operator expression "
+                        f"(`x BETWEEN a AND b = c`) is re-associated by the backend; the members need "
+                        f"self_group(against={encl})", loc)
     # BooleanClauseList._process_clauses_for_boolean
     f = ctx.func(f"{EL}::BooleanClauseList._process_clauses_for_boolean")
     rets = returns_of(f.node)
@@ -723,29 +948,89 @@ def r4(ctx):
                 good = "operator" in binds
     ctx.check(good, f"{f.key}:clauses", "boolean clause lists do not self_group(against=operator) their members",
               "self_group(against=operator) when more than one clause", f.loc)
-    # self_group overrides that consult is_precedent
-    for cname in ("OperatorExpression", "ClauseList", "UnaryExpression"):
-        f = ctx.func(f"{EL}::{cname}.self_group")
-        ok = False
-        for st in walk_stmts(f.node.body):
-            if isinstance(st, ast.If):
-                ips = [c for c in calls_in(st.test) if (call_name(c) or "").endswith("is_precedent")]
-                if not ips:
+    # self_group() of every operator-bearing expression class (T-SIBLING over the family): under the
+    # hypothesis that is_precedent(self.operator, against) holds, a path that returns `self` must be unreachable,
+    # or restricted to operators whose rendering is delimited in every compiler, or the class's own visit
+    # method is delimited, or listed in SELF_RETURN_EXCEPTIONS; any self_group() that hands over to another
+    # self_group() must forward `against`
+    from ..astutil import guard_atoms as _ga
+    bases = [ctx.index.cls(k) for k in OPERATOR_BASES]
+    fam = []
+    for cls in ctx.index.all_classes():
+        if "/testing/" in cls.module.relpath or cls.module.relpath.startswith("testing/"):
+            continue
+        f = cls.methods.get("self_group")
+        if f is None or f.type_only or f.is_overload:
+            continue
+        fam.append((cls, f, any(cls is b or ctx.index.is_subclass(cls, b) for b in bases)))
+    ctx.require(sum(1 for x in fam if x[2]) >= 5, "fewer than 5 operator-bearing classes define self_group()")
+    for cls, f, bearing in fam:
+        ctx.functions_analysed.add(f.key)
+        agp = "against" if "against" in f.params else None
+        # forwarding
+        for c in calls_in(f.node):
+            if isinstance(c.func, ast.Attribute) and c.func.attr == "self_group" and agp:
+                ctx.check(_self_group_against(c) == agp, f"{f.key}:forwards-against",
+                          f"delegates to `{unparse(c.func)}` without forwarding `against`: the inner expression is "
+                          f"grouped for no operator at all", "against forwarded", f.loc)
+            elif agp and any(isinstance(a, ast.Attribute) and a.attr == "self_group" for a in c.args):
+                ctx.check(any(k.arg == "against" and unparse(k.value) == agp for k in c.keywords) or
+                          any(unparse(a) == agp for a in c.args),
+                          f"{f.key}:forwards-against",
+                          "passes an inner self_group on without forwarding `against`", "against forwarded", f.loc)
+        if not bearing:
+            continue
+        ctx.require(agp is not None, f"{f.key}: no `against` parameter")
+        g = ctx.cfg(f)
+        problems, details = [], []
+        rets = returns_of(f.node)
+        ctx.require(rets, f"{f.key}: no return statement")
+        for r in rets:
+            v = r.value
+            txt = unparse(v) if v is not None else "None"
+            if isinstance(v, ast.Call):
+                nm = (call_name(v) or "")
+                if nm.rsplit(".", 1)[-1] == "Grouping":
                     continue
-                c = ips[0]
-                args = [unparse(a) for a in c.args]
-                # polarity: the call must not sit under a `not`
-                neg = False
-                par = f.module.parents().get(c)
-                while par is not None and par is not st:
-                    if isinstance(par, ast.UnaryOp) and isinstance(par.op, ast.Not):
-                        neg = not neg
-                    par = f.module.parents().get(par)
-                body_groups = any(isinstance(s, ast.Return) and isinstance(s.value, ast.Call) and (call_name(s.value) or "") == "Grouping" for s in st.body)
-                else_self = any(isinstance(s, ast.Return) and unparse(s.value) == "self" for s in st.orelse)
-                ok = args == ["self.operator", "against"] and not neg and body_groups and else_self
-        ctx.check(ok, f.key, f"{cname}.self_group does not return Grouping(self) exactly when is_precedent(self.operator, against)",
-                  "Grouping(self) iff is_precedent(self.operator, against)", f.loc)
+                if isinstance(v.func, ast.Attribute) and v.func.attr == "self_group":
+                    continue  # judged by the forwarding check; the target is a member of the family
+            ctx.require(txt == "self", f"{f.key}: returns `{txt}`, neither self, Grouping(self) nor a delegation")
+            for nid in g.nodes_for(r):
+                guards = g.edge_guards(nid)
+                if any((lambda val: val is not None and val != pol)(_eval_under_precedent(t, ctx, cls, f.node, agp)) for t, pol in guards):
+                    details.append("returns self only where is_precedent(self.operator, against) is false")
+                    continue
+                atoms = _ga(guards)
+                xs = _guarded_operators(guards)
+                if xs:
+                    bad = []
+                    for x in xs:
+                        bare, decided = _bare_renderings(ctx, x)
+                        ctx.require(decided > 0, f"{f.key}: no rendering of operator {x} could be read")
+                        if bare:
+                            bad.append(f"{x} ({bare[0]})")
+                    if bad:
+                        problems.append(
+                            f"returns self without consulting precedence when self.operator is {xs}, but that "
+                            f"operator is not rendered delimited everywhere: {'; '.join(bad)}")
+                    else:
+                        details.append(f"returns self for {xs}: rendered delimited in every compiler")
+                    continue
+                exc = SELF_RETURN_EXCEPTIONS.get(f.key)
+                if exc is not None and (exc[0] is None or exc[0] in atoms):
+                    details.append(f"exception: {exc[1]}")
+                    continue
+                own = _own_visit_delimited(ctx, cls)
+                if own:
+                    details.append("its own visit method renders it delimited in every compiler")
+                    continue
+                cond = " and ".join(f"{'' if p else 'not '}({a})" for a, p in atoms) or "unconditionally"
+                problems.append(
+                    f"returns self {cond} even when is_precedent(self.operator, against) holds, and the class is "
+                    f"rendered through the generic operator path (operator token at the top level): it is left "
+                    f"unparenthesised inside a tighter or equally binding operator")
+        ctx.check(not problems, f.key, f"{cls.name}.self_group: " + " | ".join(problems),
+                  "; ".join(sorted(set(details))) or "always groups or delegates", f.loc)
 
 
 @R.rule("C01-R5", floor=35, template="T-SIBLING",
@@ -791,3 +1076,82 @@ R.mutant("benign-rename-is_precedent-local", OPS, sub("def is_precedent(\n    op
                                                      "def is_precedent(\n    operator: OperatorType, against: Optional[OperatorType]\n) -> bool:\n    _dbg = None\n    if operator is against"), None)
 R.mutant("benign-binary-init-reorder", EL, sub("        self.left = left.self_group(against=operator)\n        self.right = right.self_group(against=operator)\n",
                                                "        self.right = right.self_group(against=operator)\n        self.left = left.self_group(against=operator)\n"), None)
+
+# ---- strengthening round (seeds C01/1, C01/2 and the seed agents' observations)
+# seed C01/1: the LIKE family moved above the comparison tier (R1 now reads `x LIKE y [ESCAPE e]` templates)
+R.mutant("seed1-like-above-comparisons", OPS, sub("    ilike_op: 5,\n    not_ilike_op: 5,\n    like_op: 5,\n    not_like_op: 5,\n",
+                                                  "    ilike_op: 6,\n    not_ilike_op: 6,\n    like_op: 6,\n    not_like_op: 6,\n"), "C01-R1")
+R.mutant("between-above-comparisons", OPS, sub("    between_op: 5,\n    not_between_op: 5,\n", "    between_op: 6,\n    not_between_op: 6,\n"), "C01-R1")
+R.mutant("mod-below-add", OPS, sub("    mod: 8,\n", "    mod: 7,\n"), "C01-R1")
+R.mutant("benign-precedence-rows-reordered", OPS, sub("    like_op: 5,\n    not_like_op: 5,\n    in_op: 5,\n    not_in_op: 5,\n",
+                                                      "    in_op: 5,\n    not_in_op: 5,\n    like_op: 5,\n    not_like_op: 5,\n"), None)
+R.mutant("benign-like-escape-suffix-local", CMP, sub(
+    """        return "%s LIKE %s" % (
+            binary.left._compiler_dispatch(self, **kw),
+            binary.right._compiler_dispatch(self, **kw),
+        ) + (
+            " ESCAPE " + self.render_literal_value(escape, sqltypes.STRINGTYPE)
+            if escape is not None
+            else ""
+        )
+""", """        suffix = (
+            " ESCAPE " + self.render_literal_value(escape, sqltypes.STRINGTYPE)
+            if escape is not None
+            else ""
+        )
+        lhs = binary.left._compiler_dispatch(self, **kw)
+        return "%s LIKE %s" % (
+            lhs,
+            binary.right._compiler_dispatch(self, **kw),
+        ) + suffix
+"""), None)
+# seed C01/2: a self_group() override that bypasses precedence for an operator that is not always delimited
+_BIN_NEGATE = "    def _negate(self):\n        if self.negate is not None:\n            return BinaryExpression(\n"
+R.mutant("seed2-binary-self-group-floordiv", EL, sub(_BIN_NEGATE, """    def self_group(self, against=None):
+        if against is not None and self.operator is operators.floordiv:
+            return self
+        return super().self_group(against=against)
+
+""" + _BIN_NEGATE), "C01-R4")
+R.mutant("binary-self-group-helper-bypass", EL, sub(_BIN_NEGATE, """    def _renders_delimited(self):
+        return self.operator in (operators.floordiv, operators.truediv)
+
+    def self_group(self, against=None):
+        if self._renders_delimited():
+            return self
+        return super().self_group(against=against)
+
+""" + _BIN_NEGATE), "C01-R4")
+R.mutant("booleanclauselist-empty-test-flipped", EL, sub("        if not self.clauses:\n            return self\n        else:\n            return super().self_group(against=against)",
+                                                         "        if self.clauses:\n            return self\n        else:\n            return super().self_group(against=against)"), "C01-R4")
+R.mutant("typecoerce-drops-against", EL, sub("        grouped = self.clause.self_group(against=against)\n", "        grouped = self.clause.self_group()\n"), "C01-R4")
+R.mutant("label-drops-against", EL, sub("        return self._apply_to_inner(self._element.self_group, against=against)\n",
+                                        "        return self._apply_to_inner(self._element.self_group)\n"), "C01-R4")
+R.mutant("flattened-list-ungrouped", EL, sub("                    *(left_flattened + right_flattened),\n                )",
+                                             "                    *(left_flattened + right_flattened),\n                    group=False,\n                )"), "C01-R4")
+R.mutant("benign-binary-self-group-delegates", EL, sub(_BIN_NEGATE, """    def self_group(self, against=None):
+        return super().self_group(against=against)
+
+""" + _BIN_NEGATE), None)
+R.mutant("benign-binary-self-group-delimited-operator", EL, sub(_BIN_NEGATE, """    def self_group(self, against=None):
+        if self.operator is operators.not_in_op:
+            return self
+        return super().self_group(against=against)
+
+""" + _BIN_NEGATE), None)
+R.mutant("benign-unary-self-group-early-return", EL, sub(
+    "        if self.operator and operators.is_precedent(self.operator, against):\n            return Grouping(self)\n        else:\n            return self",
+    "        if not (self.operator and operators.is_precedent(self.operator, against)):\n            return self\n        return Grouping(self)"), None)
+R.mutant("benign-clauselist-self-group-helper", EL, sub(
+    "        if self.group and operators.is_precedent(self.operator, against):\n            return Grouping(self)\n        else:\n            return self\n\n\nclass OperatorExpression",
+    "        needs = self._needs_parens(against)\n        if needs:\n            return Grouping(self)\n        else:\n            return self\n\n"
+    "    def _needs_parens(self, op):\n        return self.group and operators.is_precedent(self.operator, op)\n\n\nclass OperatorExpression"), None)
+# the repairs of the two findings of this round must be silent
+R.mutant("benign-fix-between-members-grouped", DC, sub(
+    "                cleft,\n                expr=expr,\n                operator=operators.and_,\n            ),\n"
+    "            coercions.expect(\n                roles.BinaryElementRole,\n                cright,\n                expr=expr,\n                operator=operators.and_,\n            ),\n",
+    "                cleft,\n                expr=expr,\n                operator=operators.and_,\n            ).self_group(against=op),\n"
+    "            coercions.expect(\n                roles.BinaryElementRole,\n                cright,\n                expr=expr,\n                operator=operators.and_,\n            ).self_group(against=op),\n"), None)
+R.mutant("benign-fix-asboolean-consults-precedence", EL, sub(
+    "    def self_group(self, against: Optional[OperatorType] = None) -> Self:\n        return self\n\n    def _negate(self):\n        if isinstance(self.element, (True_, False_)):",
+    "    def self_group(self, against=None):\n        if against is not None and operators.is_precedent(self.operator, against):\n            return Grouping(self)\n        return self\n\n    def _negate(self):\n        if isinstance(self.element, (True_, False_)):"), None)
